@@ -18,6 +18,11 @@ COMPS = ("obj", "grad", "cons", "jac", "hess")
 _PKG = "pygradflow"
 
 
+def site_has(site, name):
+    """Does the stack (qualified names) contain a function called `name`?"""
+    return any(q.split(".")[-1] == name for q in site)
+
+
 def call_site(depth=2, limit=40):
     """Names of the pygradflow functions on the stack, innermost first.
     Identified by function name (not line) so that refactoring that moves
@@ -28,7 +33,7 @@ def call_site(depth=2, limit=40):
     while f is not None and k < limit:
         fn = f.f_code.co_filename
         if "/" + _PKG + "/" in fn.replace("\\", "/"):
-            names.append(f.f_code.co_name)
+            names.append(getattr(f.f_code, "co_qualname", f.f_code.co_name))
         f = f.f_back
         k += 1
     return names
@@ -106,7 +111,7 @@ class SimProblem(Problem):
         inb = self.um.in_bounds(x)
         self.calls.append((comp, self.total[comp], x.tobytes(), inb, site[0] if site else "?"))
         if not inb:
-            self.oob.append((comp, self.total[comp], tuple(site[:8]), x.copy()))
+            self.oob.append((comp, self.total[comp], tuple(site[:12]), x.copy()))
         if self.log is not None:
             self.log(("eval", comp, self.total[comp], x.tobytes(), inb))
         if self.track_alias:
@@ -114,7 +119,7 @@ class SimProblem(Problem):
         return k, site
 
     def _note_fired(self, idx, comp, k, x, site):
-        self.fired.append((idx, comp, k, x.tobytes(), tuple(site[:8])))
+        self.fired.append((idx, comp, k, x.tobytes(), tuple(site[:12])))
         if self.log is not None:
             self.log(("eval.fault", comp, k, idx))
 
@@ -322,7 +327,7 @@ class LinDevice:
 
             def solve(self, rhs, *a, **kw):
                 site = call_site(2)
-                observer = "estimate_rcond" in site
+                observer = site_has(site, "estimate_rcond")
                 if observer:
                     dev.n_obs_solve += 1
                     k = dev.n_obs_solve
@@ -335,7 +340,7 @@ class LinDevice:
                     dev.log(("lin." + op, k, np.asarray(rhs).tobytes()))
                 for f in dev.faults:
                     if f.get("op") == op and f.get("at") == k:
-                        dev.fired.append((op, k, tuple(site[:8])))
+                        dev.fired.append((op, k, tuple(site[:12])))
                         if dev.log is not None:
                             dev.log(("lin.fault", op, k))
                         raise LinearSolverError("injected solve failure")
